@@ -28,6 +28,13 @@ class Infra(Exception):
     """Infrastructure trouble: exit 2, never a violation."""
 
 
+class DriverPanic(Infra):
+    """The driver's main goroutine panicked inside the code under test while running scenario `key`."""
+    def __init__(self, key, text, stack):
+        Infra.__init__(self, "driver panicked in scenario %s: %s" % (key, text))
+        self.key, self.text, self.stack = key, text, stack
+
+
 def log(*a):
     print(*a, flush=True)
 
@@ -92,6 +99,13 @@ class Run:
         except subprocess.TimeoutExpired:
             raise Infra("driver %s timed out after %ds" % (driver, timeout))
         mp = os.path.join(d, "meta.json")
+        pj = os.path.join(d, "panic.json")
+        if p.returncode == 3 and os.path.exists(pj):
+            pr = json.load(open(pj))
+            os.remove(pj)
+            # only a panic that passed through the library is attributed to it
+            if pr.get("key") and "github.com/gobwas/ws" in pr.get("stack", ""):
+                raise DriverPanic(pr["key"], pr["panic"], pr["stack"][-3000:])
         if p.returncode != 0 or not os.path.exists(mp):
             raise Infra("driver %s died (exit %d):\n%s\n%s" % (
                 driver, p.returncode, p.stdout[-3000:], p.stderr[-3000:]))
